@@ -15,6 +15,7 @@ from __future__ import annotations
 
 import itertools
 import json
+import logging
 import random
 
 from . import common as C
@@ -127,10 +128,46 @@ def gen_lang(rng: random.Random, flags=None) -> Lang:
     listed = []
     for _ in range(rng.randint(1, 3)):
         r = rng.random()
-        listed.append(ty(0) if r < 0.3 else ty(1) if r < 0.75 else ty(2))
+        listed.append(ty(0) if r < 0.25 else ty(1) if r < 0.7 else ty(2))
+    if not any(t[1] for t in listed) and rng.random() < 0.8:
+        o = rng.choice(comps)                    # mostly at least one compound listed type
+        listed.append((o, [ty(rng.choice([0, 0, 1])) for _ in range(h.arity(o))]))
     if flags is None:
         flags = (rng.random() < 0.5, rng.random() < 0.5)
     return Lang(h, listed, flags[0], flags[1], rng.randint(0, 2))
+
+
+def gen_interesting(rng: random.Random, flags) -> Lang:
+    """Mostly languages whose canon has at least four types (tiny ones exercise little)."""
+    while True:
+        L = gen_lang(rng, flags)
+        if rng.random() < 0.25:
+            return L
+        try:
+            if len(L.build().canon) >= 4:
+                return L
+        except Exception:
+            return L      # reported by run()
+
+
+def small_scope(every: int = 1) -> list[Lang]:
+    """Every language over A > B > C, D with covariant F, contravariant G and
+    K(co, contra) whose canon specification is a single type of nesting <= 1,
+    under each Top/Bottom combination (28 x 4 = 112 languages); `every` thins it out."""
+    h = lambda: C.Hierarchy({6: 5, 7: 6}, {9: [True], 10: [False], 11: [True, False]}, 4)
+    bases = [(b, []) for b in (5, 6, 7, 8)]
+    types = list(bases)
+    for o, ar in ((9, 1), (10, 1), (11, 2)):
+        for combo in itertools.product(bases, repeat=ar):
+            types.append((o, list(combo)))
+    out = []
+    k = 0
+    for t in types:
+        for flags in ((False, False), (True, False), (False, True), (True, True)):
+            if k % every == 0:
+                out.append(Lang(h(), [t], flags[0], flags[1], 1))
+            k += 1
+    return out
 
 
 FIXED = [
@@ -206,6 +243,7 @@ def observe(L: Lang, with_graph: bool = True) -> dict:
     obs["objs"] = {key[c]: c for c in canon_objs}
     if with_graph:
         uri = {lang.uri(c): key[c] for c in canon_objs}
+        obs["canon_after"] = None
         obs["uri_collision"] = len(uri) != len(canon_objs)
         for name, closure in (("tax", False), ("taxC", True)):
             g = TransformationGraph(lang, minimal=True, with_canonical_types=True,
@@ -245,6 +283,8 @@ def observe(L: Lang, with_graph: bool = True) -> dict:
         # subClassOf among canonical types in the full vocabulary (closure on by default)
         obs["vocab_sub"] = {(uri[s], uri[o]) for s, o in g.subject_objects(RDFS.subClassOf)
                             if s in uri and o in uri}
+        # TransformationGraph and add_taxonomy call expand_canon again
+        obs["canon_after"] = {from_impl(h, c, inv) for c in lang.canon}
     return obs
 
 
@@ -331,7 +371,9 @@ def oracle(L: Lang, obs: dict) -> list[tuple[str, dict]]:
         if not L.top and mentions(c, 0):
             out.append(("canon_top_unrequested", {"type": s_(c)}))
             break
-    # every canonical type is related to a listed one (nothing foreign)
+    if obs.get("canon_after") is not None and obs["canon_after"] != canon:
+        out.append(("canon_not_stable", {"added_by_second_expand_canon":
+            sorted(map(s_, obs["canon_after"] - canon))[:10]}))
     lt = obs["lt"]
     # 2. reachability through direct links = strict subtype; links canonical
     for t in canon:
@@ -480,6 +522,7 @@ def nontrivial(L: Lang, obs: dict) -> bool:
 def run(rep: C.Report, langs: list[Lang], tag: str, tier: str):
     # implementation first (also bounds the model's fuel and filters sizes)
     kept = []
+    n_exc = 0
     stats = {"generated": len(langs), "skipped_large": 0, "flags": {"--": 0, "T-": 0, "-B": 0, "TB": 0},
              "canon_sizes": [], "with_contravariant": 0, "with_nested_listed": 0,
              "with_nonroot_listed": 0, "with_builtin_compound": 0, "strict_pairs": 0, "direct_links": 0}
@@ -495,8 +538,23 @@ def run(rep: C.Report, langs: list[Lang], tag: str, tier: str):
             continue
         kept.append(L)
     observations = []
+    survivors = []
     for L in kept:
-        obs = observe(L)
+        try:
+            obs = observe(L)
+        except Exception as e:   # the property's observables must be computable at all
+            import traceback
+            tb = traceback.extract_tb(e.__traceback__)
+            site = next((f"{fr.filename.split('/')[-1]}:{fr.name}" for fr in reversed(tb)
+                         if "/transforge/" in fr.filename), "?")
+            n_exc += 1
+            if n_exc <= 3:
+                rep.violation(f"exception_{tag}_{len(survivors)}", {"kind": "oracle", "language": L.to_json(),
+                    "language_text": L.text(),
+                    "what": f"reading canon/subtypes/supertypes/add_taxonomy/add_vocabulary raised {type(e).__name__} at {site}: {e}"},
+                    has_input=True)
+            continue
+        survivors.append(L)
         observations.append(obs)
         stats["flags"][("T" if L.top else "-") + ("B" if L.bot else "-")] += 1
         stats["canon_sizes"].append(obs["n_canon"])
@@ -507,6 +565,8 @@ def run(rep: C.Report, langs: list[Lang], tag: str, tier: str):
         stats["with_builtin_compound"] += any(mentions(tt(t), 3) or mentions(tt(t), 4) for t in L.listed)
         stats["strict_pairs"] += len(obs["lt"])
         stats["direct_links"] += sum(len(v) for v in obs["sub"].values())
+    kept = survivors
+    stats["implementation_exceptions"] = n_exc
     blocks = [coq_block(i, L, observations[i]["n_canon"], True) for i, L in enumerate(kept)]
     outs = C.coq_eval_blocks(f"C10_{tag}", HDR, blocks, nfiles=4)
     n_dis = n_viol = 0
@@ -565,6 +625,8 @@ def ty_depth_py(t):
 
 def main(tier: str, seed: int, replay: str | None = None) -> int:
     C.force_repo_on_path()
+    # Function types print as `A ** B`; rdflib warns about the blank in the URI (C14's business)
+    logging.getLogger("rdflib.term").setLevel(logging.ERROR)
     rep = C.Report("C10", tier, seed)
     rep.proof_stage()
     rng = random.Random(seed)
@@ -572,16 +634,18 @@ def main(tier: str, seed: int, replay: str | None = None) -> int:
         d = json.loads(open(replay).read())
         langs = [Lang.from_json(d["language"])]
     else:
-        n = 90 if tier == "quick" else 900
-        langs = list(FIXED)
+        n = 150 if tier == "quick" else 2000
+        langs = list(FIXED) + small_scope()
         for k in range(n):
             # each flag combination gets a quarter of the stream
             flags = [(False, False), (True, False), (False, True), (True, True)][k % 4]
-            langs.append(gen_lang(rng, flags))
+            langs.append(gen_interesting(rng, flags))
     n, distinct, dis, viol, stats, samples = run(rep, langs, tier if not replay else "replay", tier)
     rep.coverage.update({
         "evaluations": n, "distinct_nontrivial": distinct, "disagreements": dis, "oracle_failures": viol,
-        "rule": "languages: forests of 1-6 base types (depth <= 3), 1-2 compound operators of arity 1-2 with random "
+        "rule": "seven fixed languages (hand probes, pinned tests), the small scope (every single-type canon of nesting <= 1 over "
+                "A>B>C, D, F co, G contra, K(co,contra) x 4 flag combinations = 112 languages), and random "
+                "languages: forests of 1-6 base types (depth <= 3), 1-2 compound operators of arity 1-2 with random "
                 "variance (20%: also Function/Product), 1-3 listed types of nesting 0-2 over root and non-root base types, "
                 "the four Top/Bottom combinations in equal shares, canon size capped; observation = canon, direct and "
                 "transitive subtypes/supertypes of every canonical type, subClassOf triples with and without closure, "
